@@ -214,6 +214,7 @@ type c01Shape struct {
 	// basic auth); nil when the request should be turned away
 	decisive *c01Proof
 	class    string // stable class for oracle keys
+	addr     int    // index into c01Addrs: the listen address of the server (part of its issuer string)
 	apply    func(m *c01Material, env *verifEnv, req *http.Request)
 	cleanup  func(env *verifEnv)
 }
@@ -321,6 +322,15 @@ func c01NewMaterial(t *testing.T, envU *verifEnv, deniedKey *ecdsa.PrivateKey) *
 	leaf2, err := x509.ParseCertificate(der2)
 	c01Must(err)
 	m.chains["main-ip-svc"] = [][]*x509.Certificate{{leaf2, mainCert}}
+	// certificates whose common name is the empty string: under the main CA, under the role CA with an address
+	// extension ("" is listed as automation user), under the main CA with an address extension
+	_, m.chains["km-nameless"] = verifClientChain(mainCA, st.Signer, "", nb, pub, nil)
+	m.chains["ip-nameless"] = envU.ipRestrictedChain("", blocks, pub)
+	der3, err := certgen.GenIPRestrictedX509Cert("", pub, mainCert, st.Signer, blocks, time.Hour, nil, nil)
+	c01Must(err)
+	leaf3, err := x509.ParseCertificate(der3)
+	c01Must(err)
+	m.chains["main-ip-nameless"] = [][]*x509.Certificate{{leaf3, mainCert}}
 	return m
 }
 
@@ -710,7 +720,7 @@ func c01Edit(deniedFP string, cfg []string) func(c *AppConfigFile, dir string) {
 	return func(c *AppConfigFile, dir string) {
 		c.Base.AllowedAuthBackendsForWebUI = []string{"password"}
 		c.Base.AllowedAuthBackendsForCerts = cfg
-		c.Base.AutomationUsers = []string{"svc-automation"}
+		c.Base.AutomationUsers = []string{"svc-automation", ""}
 		c.DenyTrustData.KeyDenyFPsshSha256 = []string{deniedFP}
 	}
 }
@@ -761,6 +771,13 @@ type c01Obs struct {
 }
 
 func (w *c01Worker) run(shapes []c01Shape, c c01Case, accept string) c01Obs {
+	return w.runShape(shapes[c.shp], c, accept)
+}
+
+// the listen addresses of the enumeration: idpGetIssuer appends the address unless it is ":443"
+var c01Addrs = []string{":443", ":8443"}
+
+func (w *c01Worker) runShape(sh c01Shape, c c01Case, accept string) c01Obs {
 	env := w.envs[c.sealed]
 	mat := w.mats[c.sealed]
 	if env == nil { // a worker assembled around one state (the YAML-path cross check)
@@ -769,8 +786,11 @@ func (w *c01Worker) run(shapes []c01Shape, c c01Case, accept string) c01Obs {
 			env = w.envS
 		}
 	}
-	sh := shapes[c.shp]
 	env.state.Config.Base.AllowedAuthBackendsForCerts = c01Cfg(c.cfg)
+	if sh.addr != 0 {
+		env.state.Config.Base.HttpAddress = c01Addrs[sh.addr]
+		defer func() { env.state.Config.Base.HttpAddress = c01Addrs[0] }()
+	}
 	ty := c01Types[c.ty]
 	keyData := mat.keys.sshPub
 	if ty == "x509" || ty == "x509-kubernetes" {
@@ -816,7 +836,10 @@ func (w *c01Worker) run(shapes []c01Shape, c c01Case, accept string) c01Obs {
 
 // the property's verdict on one observation
 func c01Judge(res *verifResult, shapes []c01Shape, c c01Case, o c01Obs, variant string) {
-	sh := shapes[c.shp]
+	c01JudgeShape(res, shapes[c.shp], c, o, variant)
+}
+
+func c01JudgeShape(res *verifResult, sh c01Shape, c c01Case, o c01Obs, variant string) {
 	cfg := c01Cfg(c.cfg)
 	target := c01Names[sh.target]
 	sealed := c.sealed%2 == 1
@@ -825,7 +848,7 @@ func c01Judge(res *verifResult, shapes []c01Shape, c c01Case, o c01Obs, variant 
 		userKey = "ed25519"
 	}
 	desc := map[string]interface{}{"cfg": cfg, "cfg_index": c.cfg, "shape": c.shp, "credential": sh.name, "target": target,
-		"type": c01Types[c.ty], "user_key": userKey, "method": c01HTTPMethods[c.m], "sealed": sealed, "signers_loaded": c01KeyStates[c.sealed], "variant": variant}
+		"type": c01Types[c.ty], "user_key": userKey, "method": c01HTTPMethods[c.m], "sealed": sealed, "signers_loaded": c01KeyStates[c.sealed], "listen_address": c01Addrs[sh.addr], "variant": variant}
 	obs := map[string]interface{}{"status": o.status, "certificate_for": o.user, "kind": o.kind}
 	key := func(oracle string) string { return "C01:" + oracle + ":" + sh.class }
 	if o.class >= 2 && sealed {
@@ -882,12 +905,12 @@ func TestVerif_C01(t *testing.T) {
 	c01Must(err)
 	total := c01NCfgs*nShapes + 23*8*nShapes + len(c01KsCombos)*len(c01QuickCCfgs)*nShapes
 	decode := c01QuickCase
-	modelFn := "quick_case"
+	modelCoords := "quick_coords"
 	modelTotal := "quick_total"
 	if thorough {
 		total = c01NCfgs*nShapes*24 + c01NCfgs*nShapes*len(c01KsCombos)
 		decode = c01FullCase
-		modelFn = "full_case"
+		modelCoords = "full_coords"
 		modelTotal = "full_total"
 	}
 	nWorkers := 4
@@ -934,6 +957,44 @@ func TestVerif_C01(t *testing.T) {
 		}
 		if i < c01NCfgs*nShapes || thorough {
 			res.bump("shape-class:" + strings.SplitN(sh.class, ":", 2)[0])
+		}
+	}
+	// ---- block D: combined credentials and the issuer / audience near-miss family, at (ssh, POST, main signer)
+	xshapes := c01XShapes()
+	nX := len(xshapes)
+	dCfgs := c01DCfgs()
+	totalX := len(dCfgs) * nX
+	obsX := make([]c01Obs, totalX)
+	xcase := func(i int) (c01Case, c01Shape) { return c01Case{dCfgs[i/nX], i % nX, 0, 0, 0}, xshapes[i%nX] }
+	t1 := time.Now()
+	chunkX := (totalX + nWorkers - 1) / nWorkers
+	for wi := 0; wi < nWorkers; wi++ {
+		wg.Add(1)
+		go func(wi int) {
+			defer wg.Done()
+			w := workers[wi]
+			for i := wi * chunkX; i < (wi+1)*chunkX && i < totalX; i++ {
+				c, sh := xcase(i)
+				obsX[i] = w.runShape(sh, c, "")
+			}
+		}(wi)
+	}
+	wg.Wait()
+	res.Extra["combined_seconds"] = time.Since(t1).Seconds()
+	for i := 0; i < totalX; i++ {
+		c, sh := xcase(i)
+		o := obsX[i]
+		c01JudgeShape(res, sh, c, o, "combined")
+		res.eval(fmt.Sprintf("x|%d|%d|%d", c.cfg, c.shp, o.class), len(sh.proves) > 0)
+		res.bump("combined-credentials")
+		if strings.HasPrefix(sh.class, "session-issuer:") {
+			res.bump("issuer-audience-near-miss")
+		}
+		if o.class >= 2 {
+			res.bump("issued")
+			res.bump("issued:" + o.kind)
+		} else {
+			res.bump(fmt.Sprintf("status_%d", o.status))
 		}
 	}
 	// ---- browsers (Accept: text/html) must get the same class of answer
@@ -1007,10 +1068,30 @@ func TestVerif_C01(t *testing.T) {
 			b[i-s0] = byte(obs[i].class)
 		}
 		sb.WriteString(fmt.Sprintf("Definition obs_%d : list N := %s.\n", k, coqPacked(b)))
-		sb.WriteString(fmt.Sprintf("Definition mism_%d := Eval vm_compute in diff_from %s obs_%d %d.\n", k, modelFn, k, s0))
+		sb.WriteString(fmt.Sprintf("Definition mism_%d := Eval vm_compute in diffv_from %s obs_%d %d.\n", k, modelCoords, k, s0))
 		parts = append(parts, fmt.Sprintf("mism_%d", k))
 	}
-	sb.WriteString("Definition c01_mismatches := Eval vm_compute in (" + strings.Join(parts, " ++ ") + ").\nPrint c01_mismatches.\n")
+	sb.WriteString("Definition c01_diffv := Eval vm_compute in (" + strings.Join(parts, " ++ ") + ").\n")
+	sb.WriteString("Definition c01_mismatches := Eval vm_compute in map fst c01_diffv.\nPrint c01_mismatches.\n")
+	// the property's predicate evaluated on the OBSERVED class of every mismatching case (Model/CertgenCases.v
+	// obs_violation: 1 = a certificate for somebody the request does not entitle, 2 = neither error nor certificate)
+	sb.WriteString("Definition c01_violating := Eval vm_compute in violating c01_diffv.\nPrint c01_violating.\n")
+	{
+		b := make([]byte, totalX)
+		for i := range b {
+			b[i] = byte(obsX[i].class)
+		}
+		cf := "quick_d_cfgs"
+		if thorough {
+			cf = "full_d_cfgs"
+		}
+		sb.WriteString(fmt.Sprintf("Definition xobs : list N := %s.\n", coqPacked(b)))
+		sb.WriteString(fmt.Sprintf("Definition c01_combined_diffv := Eval vm_compute in xdiffv_from (x_cases %s) xobs 0.\n", cf))
+		sb.WriteString("Definition c01_combined_mismatches := Eval vm_compute in map fst c01_combined_diffv.\nPrint c01_combined_mismatches.\n")
+		sb.WriteString("Definition c01_combined_violating := Eval vm_compute in violating c01_combined_diffv.\nPrint c01_combined_violating.\n")
+		sb.WriteString(fmt.Sprintf("Definition c01_combined_size_mismatches := Eval vm_compute in (if (n_xshapes =? %d) && (N.of_nat (length (x_cases %s)) =? %d) && bs_eqb (case_issuer 0) %s && bs_eqb (case_issuer 1) %s then @nil N else [0]).\nPrint c01_combined_size_mismatches.\n",
+			nX, cf, totalX, coqPacked([]byte(workers[0].mat.issuer)), coqPacked([]byte(c01Issuer(1)))))
+	}
 	sb.WriteString(fmt.Sprintf("Definition c01_ncases := Eval vm_compute in %d.\nPrint c01_ncases.\n", total))
 	sb.WriteString(fmt.Sprintf("(* the harness and the model enumerate the same number of cases and shapes *)\nDefinition c01_size_mismatches := Eval vm_compute in (if (%s =? %d) && (n_shapes =? %d) && (n_cfgs =? %d) then @nil N else [0]).\nPrint c01_size_mismatches.\n", modelTotal, total, nShapes, c01NCfgs))
 	sb.WriteString("Definition tls_cases : list (N * N * N) := [")
@@ -1031,6 +1112,13 @@ func TestVerif_C01(t *testing.T) {
 			shapes[c.shp].name, c01HTTPMethods[c.m], c01Names[shapes[c.shp].target], c.ty, c01Types[c.ty], c01KeyStates[c.sealed], obs[i].status, obs[i].class, obs[i].user))
 	}
 	ioutil.WriteFile(filepath.Join(verifOut(), "CasesC01.idx"), []byte(idx.String()), 0644)
+	var idxX strings.Builder
+	for i := 0; i < totalX; i++ {
+		c, sh := xcase(i)
+		idxX.WriteString(fmt.Sprintf("%d\tcfg#%d=%q combined#%d=%s POST /certgen/%s type=ssh signers=main -> status=%d class=%d %s\n", i, c.cfg, c01Cfg(c.cfg), c.shp,
+			sh.name, c01Names[sh.target], obsX[i].status, obsX[i].class, obsX[i].user))
+	}
+	ioutil.WriteFile(filepath.Join(verifOut(), "CasesC01x.idx"), []byte(idxX.String()), 0644)
 	for _, i := range []int{96*nShapes + 11, 64*nShapes + 11, 36*nShapes + 6, 1*nShapes + 56} {
 		if thorough {
 			i = i * 24
@@ -1041,4 +1129,256 @@ func TestVerif_C01(t *testing.T) {
 	}
 	res.Exhaustive = true
 	res.write(t, "TestVerif_C01")
+}
+
+// ---------------------------------------------------------------- block D: combined credentials
+//
+// Mirror of Model/CertgenCases.v xshapes (same nesting, same order): every client-certificate kind x
+// every state of the session cookie for the certificate's own user x Basic header {absent, good, wrong
+// password}, every cookie state for another user; then the issuer / audience near-miss family.
+
+type c01CookieState struct {
+	name  string // description
+	class string // stable class for oracle keys
+	level int    // the level a VALID cookie of this state establishes (0: establishes nothing)
+	build func(m *c01Material, user string) string
+}
+
+var c01XLevels = []int{AuthTypePassword, AuthTypeFederated, AuthTypeU2F, AuthTypeSymantecVIP, AuthTypeIPCertificate, AuthTypeTOTP,
+	AuthTypeOkta2FA, AuthTypeBootstrapOTP, AuthTypeKeymasterX509, AuthTypeWebauthForCLI, AuthTypeFIDO2}
+
+func c01CookieStates() []c01CookieState {
+	var l []c01CookieState
+	for _, lv := range c01XLevels {
+		lv := lv
+		l = append(l, c01CookieState{fmt.Sprintf("valid level=%#x", lv), "valid", lv, func(m *c01Material, u string) string { return m.good(u, lv) }})
+	}
+	timed := func(name, class string, level int, nbfOff, expOff int64) c01CookieState {
+		return c01CookieState{name, class, 0, func(m *c01Material, u string) string {
+			now := time.Now().Unix()
+			return verifSignClaims(m.envU.state.Signer, m.claims(u, level, now+nbfOff, now+expOff))
+		}}
+	}
+	l = append(l, timed("U2F expired 30s ago", "expired", AuthTypeU2F, -7200, -30), timed("U2F expired 1h ago", "expired", AuthTypeU2F, -7200, -3600),
+		timed("TOTP expired 30s ago", "expired", AuthTypeTOTP, -7200, -30), timed("all factors expired 1h ago", "expired", 4094, -7200, -3600),
+		timed("U2F valid in 30s", "not-yet-valid", AuthTypeU2F, 30, 3600), timed("U2F valid in 1h", "not-yet-valid", AuthTypeU2F, 3600, 7200))
+	// the window claims themselves: exp absent (the claim is omitted when zero: expired in 1970), nbf absent (valid
+	// since 1970), exp in the year 2100
+	claimed := func(name, class string, valid bool, level int, edit func(c *authInfoJWT)) c01CookieState {
+		lv := 0
+		if valid {
+			lv = level
+		}
+		return c01CookieState{name, class, lv, func(m *c01Material, u string) string {
+			return m.staticToken("x|"+name+"|"+u, func() string {
+				now := time.Now().Unix()
+				c := m.claims(u, level, now-100, now+6*3600)
+				edit(&c)
+				return verifSignClaims(m.envU.state.Signer, c)
+			})
+		}}
+	}
+	l = append(l, claimed("U2F without exp claim", "no-exp-claim", false, AuthTypeU2F, func(c *authInfoJWT) { c.Expiration = 0 }),
+		claimed("U2F without nbf claim", "valid", true, AuthTypeU2F, func(c *authInfoJWT) { c.NotBefore = 0 }),
+		claimed("TOTP expiring in 2100", "valid", true, AuthTypeTOTP, func(c *authInfoJWT) { c.Expiration = 4102444800 }))
+	variant := func(name, class string, edit func(m *c01Material, c *authInfoJWT)) c01CookieState {
+		return c01CookieState{name, class, 0, func(m *c01Material, u string) string {
+			return m.staticToken("x|"+name+"|"+u, func() string {
+				now := time.Now().Unix()
+				c := m.claims(u, AuthTypeU2F, now-100, now+6*3600)
+				edit(m, &c)
+				return verifSignClaims(m.envU.state.Signer, c)
+			})
+		}}
+	}
+	l = append(l, variant("U2F of an unrelated issuer", "foreign-issuer", func(m *c01Material, c *authInfoJWT) { c.Issuer = "https://other.example" }),
+		variant("U2F for an unrelated audience", "foreign-audience", func(m *c01Material, c *authInfoJWT) { c.Audience = []string{"https://other.example"} }),
+		variant("U2F without audience", "no-audience", func(m *c01Material, c *authInfoJWT) { c.Audience = nil }),
+		variant("U2F audience [other, issuer]", "audience-second-place", func(m *c01Material, c *authInfoJWT) { c.Audience = []string{"https://other.example", m.issuer} }),
+		variant("kind cli identity", "other-kind", func(m *c01Material, c *authInfoJWT) { c.TokenType = "keymaster_webauth_for_cli_identity" }),
+		variant("kind storage_data", "other-kind", func(m *c01Material, c *authInfoJWT) { c.TokenType = "storage_data" }),
+		variant("kind empty", "other-kind", func(m *c01Material, c *authInfoJWT) { c.TokenType = "" }))
+	l = append(l, c01CookieState{"U2F signed by a foreign key", "foreign-key", 0, func(m *c01Material, u string) string {
+		return m.staticToken("x|foreign|"+u, func() string {
+			now := time.Now().Unix()
+			var k crypto.Signer = m.foreignRSA
+			if _, ok := m.envU.state.Signer.Public().(*rsa.PublicKey); !ok {
+				k = m.foreignKey
+			}
+			return verifSignClaims(k, m.claims(u, AuthTypeU2F, now-100, now+6*3600))
+		})
+	}})
+	l = append(l, c01CookieState{"U2F alg none", "alg-none", 0, func(m *c01Material, u string) string {
+		now := time.Now().Unix()
+		return c01RawJWT(map[string]string{"alg": "none", "typ": "JWT"}, m.claims(u, AuthTypeU2F, now-100, now+6*3600), nil)
+	}})
+	l = append(l, c01CookieState{"U2F signature bit flipped", "altered", 0, func(m *c01Material, u string) string { return c01FlipSig(m.good(u, AuthTypeU2F)) }})
+	l = append(l, c01CookieState{"not a token", "garbage", 0, func(m *c01Material, u string) string { return "AAAA.BBBB" }})
+	return l
+}
+
+type c01CertKind struct {
+	name, chain, remote string
+	target              int
+	proves              []c01Proof
+}
+
+func c01CertKinds() []c01CertKind {
+	return []c01CertKind{
+		{"none", "", "", 1, nil},
+		{"km-alice", "km-alice", "", 1, []c01Proof{{"alice", AuthTypeKeymasterX509}}},
+		{"ip-svc-inside", "ip-svc", c01Inside, 3, []c01Proof{{"svc-automation", AuthTypeIPCertificate}}},
+		{"main-ip-svc-inside", "main-ip-svc", c01Inside, 3, []c01Proof{{"svc-automation", AuthTypeKeymasterX509 | AuthTypeIPCertificate}}},
+		{"main-ip-svc-outside", "main-ip-svc", c01Outside, 3, []c01Proof{{"svc-automation", AuthTypeKeymasterX509}}},
+		{"foreign-alice", "foreign-alice", "", 1, nil},
+		{"ip-svc-outside", "ip-svc", c01Outside, 3, nil},
+		{"km-alice-denied", "km-alice-denied", "", 1, nil},
+		// certificates whose common name is the empty string, on requests for alice
+		{"km-nameless", "km-nameless", "", 1, nil},
+		{"ip-nameless-inside", "ip-nameless", c01Inside, 1, nil},
+		{"main-ip-nameless-inside", "main-ip-nameless", c01Inside, 1, nil},
+	}
+}
+
+// a certificate without a name that the address test accepts is ignored: the cookie code decides
+func (ck c01CertKind) passThrough() bool {
+	return ck.name == "ip-nameless-inside" || ck.name == "main-ip-nameless-inside"
+}
+
+var c01OtherUser = "bob"
+
+// the near-miss family of an issuer string (Model/CertgenCases.v near_misses, same order)
+var c01NearMissNames = []string{"last-byte-cut", "short-prefix", "digit-appended", "port-appended", "label-appended", "letters-appended",
+	"trailing-slash", "path-appended", "trailing-dot", "upper-case", "host-upper-case", "scheme-http", "leading-blank", "trailing-blank",
+	"empty", "no-scheme", "unrelated", "other-listen-address", "last-byte-replaced"}
+
+func c01Issuer(addr int) string {
+	if addr == 0 {
+		return "https://keymaster.example"
+	}
+	return "https://keymaster.example" + c01Addrs[addr]
+}
+
+func c01NearMisses(addr int) []string {
+	I := c01Issuer(addr)
+	return []string{I[:len(I)-1], I[:12], I + "0", I + ":1", I + ".au", I + "evil", I + "/", I + "/x", I + ".", strings.ToUpper(I),
+		"https://" + strings.ToUpper(I[8:]), "http://" + I[8:], " " + I, I + " ", "", I[8:], "https://other.example", c01Issuer(1 - addr),
+		I[:len(I)-1] + "f"}
+}
+
+func c01XShapes() []c01Shape {
+	states := c01CookieStates()
+	var s []c01Shape
+	basics := []struct{ name, user, pw string }{{"none", "", ""}, {"good", "alice", "alicepw"}, {"wrong-password", "alice", "wrong"}}
+	for _, ck := range c01CertKinds() {
+		ck := ck
+		user := c01Names[ck.target]
+		mk := func(bi int, st *c01CookieState, cookieUser string) c01Shape {
+			b := basics[bi]
+			sh := c01Shape{target: ck.target}
+			sh.proves = append(sh.proves, ck.proves...)
+			cname, cclass := "no cookie", "none"
+			var cookieProof *c01Proof
+			if st != nil {
+				cname, cclass = st.name+" for "+cookieUser, st.class
+				if cookieUser != user {
+					cclass += ":other-user"
+				}
+				if st.level&AuthTypeAny != 0 {
+					cookieProof = &c01Proof{cookieUser, st.level}
+					sh.proves = append(sh.proves, *cookieProof)
+				}
+			}
+			var basicProof *c01Proof
+			if bi == 1 {
+				basicProof = &c01Proof{b.user, AuthTypePassword}
+				sh.proves = append(sh.proves, *basicProof)
+			}
+			// what checkAuth is expected to go by: a presented certificate alone; else the cookie if there
+			// is one; the Basic header only without any cookie
+			switch {
+			case ck.chain != "" && !ck.passThrough():
+				if len(ck.proves) > 0 {
+					sh.decisive = &ck.proves[0]
+				}
+			case st != nil:
+				sh.decisive = cookieProof
+			default:
+				sh.decisive = basicProof
+			}
+			sh.name = fmt.Sprintf("certificate %s + cookie %s + basic auth %s", ck.name, cname, b.name)
+			sh.class = "combined:cert=" + ck.name + ":cookie=" + cclass + ":basic=" + b.name
+			sh.apply = func(m *c01Material, env *verifEnv, req *http.Request) {
+				if ck.chain != "" {
+					withTLS(req, m.chains[ck.chain], ck.remote)
+				}
+				if st != nil {
+					req.AddCookie(authCookie(st.build(m, cookieUser)))
+				}
+				if bi != 0 {
+					req.SetBasicAuth(b.user, b.pw)
+				}
+			}
+			return sh
+		}
+		for bi := range basics {
+			s = append(s, mk(bi, nil, ""))
+			for i := range states {
+				s = append(s, mk(bi, &states[i], user))
+			}
+		}
+		for i := range states {
+			s = append(s, mk(0, &states[i], c01OtherUser))
+		}
+	}
+	// the issuer / audience near-miss family, per listen address
+	u2fAlice := c01Proof{"alice", AuthTypeU2F}
+	for addr := range c01Addrs {
+		addr := addr
+		I := c01Issuer(addr)
+		mk := func(name, class string, valid bool, iss string, aud []string) c01Shape {
+			sh := c01Shape{name: fmt.Sprintf("listen address %s: U2F cookie iss=%q aud=%q (%s)", c01Addrs[addr], iss, aud, name), target: 1, addr: addr,
+				class: "session-issuer:" + class}
+			if valid {
+				sh.proves = []c01Proof{u2fAlice}
+				sh.decisive = &u2fAlice
+			}
+			key := fmt.Sprintf("fam|%d|%s|%q", addr, iss, aud)
+			sh.apply = func(m *c01Material, env *verifEnv, req *http.Request) {
+				req.AddCookie(authCookie(m.staticToken(key, func() string {
+					now := time.Now().Unix()
+					c := m.claims("alice", AuthTypeU2F, now-100, now+6*3600)
+					c.Issuer, c.Audience = iss, aud
+					return verifSignClaims(m.envU.state.Signer, c)
+				})))
+			}
+			return sh
+		}
+		s = append(s, mk("own issuer", "own", true, I, []string{I}))
+		for i, nm := range c01NearMisses(addr) {
+			n := c01NearMissNames[i]
+			s = append(s, mk("issuer "+n, "iss:"+n, false, nm, []string{I}),
+				mk("audience "+n, "aud:"+n, false, I, []string{nm}),
+				mk("issuer and audience "+n, "iss+aud:"+n, false, nm, []string{nm}),
+				mk("audience ["+n+", own]", "aud-second-place:"+n, false, I, []string{nm, I}),
+				mk("audience [own, "+n+"]", "aud-first-place:"+n, true, I, []string{I, nm}))
+		}
+	}
+	return s
+}
+
+var c01QuickDCfgs = []int{0, 1, 16, 36}
+
+func c01DCfgs() []int {
+	if !verifThorough() {
+		return c01QuickDCfgs
+	}
+	var l []int
+	for i := 0; i < 64; i++ {
+		l = append(l, 8*i+4)
+	}
+	for i := 0; i < 16; i++ {
+		l = append(l, 512+i)
+	}
+	return l
 }
